@@ -100,6 +100,9 @@ func c19pool(r *mon.Rand, kind refcose.Kind, n int) []c19input {
 			}
 		}
 		// generic failures
+		for _, one := range []byte{0x00, 0x40, 0x80, 0x83, 0xa0, 0xd2, 0xd8, 0xf6, 0xff} {
+			pool = append(pool, c19input{stage: "one-byte", b: []byte{one}})
+		}
 		pool = append(pool, c19input{stage: "truncated", b: v[:len(v)/2]}, c19input{stage: "trailing", b: append(append([]byte{}, v...), 0)}, c19input{stage: "empty", b: []byte{}})
 		if len(v) > 0 {
 			bad := append([]byte{}, v...)
